@@ -17,7 +17,61 @@ def judge(case):
         why = progcmp.cmp_program(case["out"]["prog"], p, sections=("vars", "params"), num_kind=False, allow_hoisted=True)
         if why:
             return "bad", dict(d, reason="generation %d of the tdm program: %s; serialised text:\n%s" % (g, why, blackbird.dumps(p)))
+    why = instances_keep_data(d["text"])
+    if why:
+        return "bad", dict(d, reason=why)
     return st, d
+
+
+def call_values(prog):
+    """a value for every written parameter of a loaded template (whole-array parameters p_r_c get one array)"""
+    import re
+    import numpy as np
+    vals, shapes = {}, {}
+    for q in map(str, prog.parameters):
+        m = re.fullmatch(r"(\w+?)_(\d+)_(\d+)", q)
+        if m:
+            b, r, c = m.group(1), int(m.group(2)) + 1, int(m.group(3)) + 1
+            shapes[b] = (max(shapes.get(b, (0, 0))[0], r), max(shapes.get(b, (0, 0))[1], c))
+        else:
+            vals[q] = 0.75
+    for b, (r, c) in shapes.items():
+        vals[b] = (np.arange(r * c, dtype=float).reshape(r, c) + 1) / 4
+    return vals
+
+
+def instances_keep_data(text):
+    """the declared arrays stay available under their names - in the template as well, whatever the owner of an INSTANCE does with
+    the arrays of that instance (instantiate, change the instance's arrays in place, look at the template and at a later instance)"""
+    import copy
+    import numpy as np
+    import blackbird
+    from .. import realrun
+    tmpl = realrun.loads(text)[1]
+    if not tmpl.is_template():
+        return None
+    try:
+        vals = call_values(tmpl)
+        inst = tmpl(**vals)
+    except BaseException:      # noqa: BLE001   instantiation itself is C04's subject
+        return None
+    numeric = {n: copy.deepcopy(v) for n, v in tmpl.variables.items() if isinstance(v, np.ndarray) and v.dtype.kind in "ifc"}
+    text0 = None
+    try:
+        text0 = blackbird.dumps(tmpl)
+    except BaseException:      # noqa: BLE001
+        pass
+    for n, v in inst.variables.items():
+        if isinstance(v, np.ndarray) and v.dtype.kind in "ifc" and v.size:
+            v[0, 0] = v[0, 0] + 1
+    for who, prog in (("the template", tmpl), ("a later instance", tmpl(**vals))):
+        for n, v in numeric.items():
+            w = prog.variables.get(n)
+            if not (isinstance(w, np.ndarray) and w.shape == v.shape and np.array_equal(w, v)):
+                return "after an instance changed its own array %s in place, %s holds %r under that name, declared was %r" % (n, who, w, v)
+    if text0 is not None and blackbird.dumps(tmpl) != text0:
+        return "after an instance changed its own arrays in place, the serialisation of the template changed"
+    return None
 
 
 def fingerprint(case, d):
@@ -35,7 +89,7 @@ def run(rep, tier, seed):
     rep.cov["tdm_cases"] = sum(1 for c in cases if c["s"]["type"]["name"] == "tdm")
     rep.cov["rule"] = ("scripts of up to %d items from 13 (four p-arrays of int/float/complex type and 1..3 entries, a scalar and an ordinary array, "
                        "statements using p-arrays in positional and keyword position, ordinary variables, a template parameter, a loop) under two "
-                       "tdm metadata variants and a non-tdm control; load, parameters, is_template, variables, two dumps/loads generations" % N)
+                       "tdm metadata variants and a non-tdm control; load, parameters, is_template, variables, two dumps/loads generations; for templates: an instance whose arrays are changed in place leaves the template's and later instances' declared arrays alone" % N)
 
 
 def replay(path):
